@@ -4,3 +4,6 @@ open Spydr.IR
 #print axioms Spydr.IR.cloneNetlist_frame
 #print axioms Spydr.IR.cloneNetlist_iso
 #print axioms Spydr.IR.cloneNetlist_closed
+#print axioms Spydr.IR.step_below
+#print axioms Spydr.IR.run_below
+#print axioms Spydr.IR.cloneNetlist_reachable
